@@ -10,7 +10,7 @@ from .c19 import l1
 FAMILIES = {'Clayton': 'copulas.bivariate.clayton.Clayton', 'Frank': 'copulas.bivariate.frank.Frank',
             'Gumbel': 'copulas.bivariate.gumbel.Gumbel'}
 BATCH_REDUCTIONS = {'all', 'any', 'sum', 'max', 'min', 'mean', 'std', 'prod', 'argmax', 'argmin', 'sort', 'argsort', 'cumsum',
-                    'median', 'unique', 'ptp', 'var', 'cumprod', 'nanmax', 'nanmin'}
+                    'median', 'unique', 'ptp', 'var', 'cumprod', 'nanmax', 'nanmin', 'allclose', 'array_equal', 'array_equiv'}
 # Reductions over the batch that were read by hand and cannot change a row of a batch inside the property's quantifier.
 # Keys are written with the canonical names U, V for the two columns; candidates are compared through their AC normal
 # form with local temporaries inlined, so renaming locals or reordering operands does not create a "new" candidate.
